@@ -55,4 +55,25 @@ theorem noEscape_matches_eq (h : Html5Elements) (env : Env) (name : Nat) :
       (h.isHtmlElement env name && noEscapeNames.contains (asciiLower (env.localName name))) :=
   HtmlNames.matches_eq h.noEscape env name lowerClosed_tables.2.2.2.2
 
+/-- `formatted_names.matches`: HTML namespace and `pre` / `script` / `style` / `title` / `textarea`. -/
+theorem formatted_matches_eq (h : Html5Elements) (env : Env) (name : Nat) :
+    h.formatted.matches env name =
+      (h.isHtmlElement env name && formattedNames.contains (asciiLower (env.localName name))) :=
+  HtmlNames.matches_eq h.formatted env name lowerClosed_tables.2.2.2.1
+
+/-- `is_inline`: HTML namespace and (phrasing content or not an HTML element name at all). -/
+theorem isInline_eq (h : Html5Elements) (env : Env) (name : Nat) :
+    h.isInline env name =
+      (h.isHtmlElement env name &&
+        (phrasingContentNames.contains (asciiLower (env.localName name))
+          || !html5Names.contains (asciiLower (env.localName name)))) := by
+  unfold Html5Elements.isInline
+  rw [HtmlNames.matches_eq h.phrasing env name lowerClosed_tables.2.2.1,
+    HtmlNames.matches_eq h.html5 env name lowerClosed_tables.1]
+  have e1 : h.phrasing.isHtmlElement env name = h.isHtmlElement env name := rfl
+  have e2 : h.html5.isHtmlElement env name = h.isHtmlElement env name := rfl
+  rw [e1, e2]
+  show (_ && (_ && List.contains phrasingContentNames _ || !(_ && List.contains html5Names _))) = _
+  cases h.isHtmlElement env name <;> simp
+
 end XotModel
